@@ -82,6 +82,12 @@ Definition plug (k : container) (pos : position) (a : atom) : container :=
             | None => fs
             end)
   | KTree t, _ => KTree (plug_tree t pos a)
+  | KRecR ds, [i] =>
+      KRecR (match nth_error ds i with
+             | Some (name, DAtom _) => set_nth i (name, DAtom a) ds
+             | Some (name, DComp _) => set_nth i (name, DComp a) ds
+             | _ => ds
+             end)
   | _, _ => k
   end.
 
